@@ -4,6 +4,7 @@ import os
 import subprocess
 import sys
 
+from ..common import safe_repr
 from .. import gencorr, runner, valcases
 from ..common import REPO, VERIF
 
@@ -109,7 +110,7 @@ def _run(ctx):
     dis = gencorr.compare(cases, ctx)
     for c, detail in dis[:10]:
         ctx.breakage("correspondence", "generator view (requests, value) differs between model and code",
-                     schema=repr(c.schema), policy=c.policy, detail=detail)
+                     schema=safe_repr(c.schema), policy=c.policy, detail=detail)
     ctx.cov["corr_disagreements"] = len(dis)
     ctx.sample({"schemas": outs[0][1]["schemas"][:3], "values_seed_7": outs[0][1]["runs"]["7"][0][:3]})
 
